@@ -26,6 +26,9 @@ class World:
         self.after_stop = []
         self.gw = None
         self.base_threads = set()
+        self.dialing = 0         # dials in flight (parked inside the device-opening call)
+        self.releases = 0
+        self.orphans = 0         # devices opened by a dial that ended after stop()
 
     def park(self, pred):
         me = threading.get_ident()
@@ -57,6 +60,28 @@ class World:
         if self.stopped_at is not None:
             self.after_stop.append(what)
 
+    def dial(self):
+        """Entry of a device-opening call: count the attempt; an attempt planned as "hold" stays in flight until released.
+        Returns the outcome."""
+        self.attempts.append(self.now)
+        self.note(("attempt", self.now))
+        ok = self.plan.pop(0) if self.plan else True
+        if ok == "hold":
+            with self.cv:
+                self.dialing += 1
+            self.park(lambda: self.releases > 0)
+            with self.cv:
+                self.releases -= 1
+                self.dialing -= 1
+                ok = self.plan.pop(0) if self.plan else True
+        return ok
+
+    def new_conn(self, c):
+        if self.stopped_at is not None:
+            c.orphan = True
+            self.orphans += 1
+        self.conns.append(c)
+
 
 class FakeTime:
     def __init__(self, world, kind):
@@ -84,6 +109,7 @@ class FakeSerial:
         self.w, self.idx = world, idx
         self.is_open, self.in_waiting, self.rx, self.written = True, 0, [], []
         self.cancelled = False
+        self.orphan = False
         self.timeout = None
         self.fail_writes = False
         self.kind = "serial"
@@ -123,6 +149,7 @@ class FakeSocket:
         self.w, self.idx = world, idx
         self.is_open, self.rx, self.written = True, [], []
         self.eof = False
+        self.orphan = False
         self.fail_writes = False
         self.kind = "tcp"
 
@@ -166,22 +193,30 @@ def install(world, dev):
     import mysensors.gateway_tcp as GT
     import mysensors.task as TASK
 
+    def det_connect(self):
+        # ReaderThread.connect() races with the reader thread's start-up (it looks at self.alive, then waits for an event
+        # that a crashing reader never sets).  The harness fixes ONE schedule: the reader gets through its start-up first.
+        world.park(lambda: self._connection_made.is_set() or not self.is_alive())
+        return serial.threaded.ReaderThread.connect(self)
+
+    class ThreadedProxy:
+        class ReaderThread(serial.threaded.ReaderThread):
+            connect = det_connect
+
     class SerialProxy:
         SerialException = serial.SerialException
-        threaded = serial.threaded
+        threaded = ThreadedProxy
         tools = serial.tools
 
         @staticmethod
         def serial_for_url(port, baud, timeout=None):
-            world.attempts.append(world.now)
-            world.note(("attempt", world.now))
-            ok = world.plan.pop(0) if world.plan else True
+            ok = world.dial()
             if not ok:
                 raise serial.SerialException("could not open port")
             c = FakeSerial(world, len(world.conns))
             if ok == "okerr":
                 c.rx.append(serial.SerialException("device disconnected right after opening"))
-            world.conns.append(c)
+            world.new_conn(c)
             return c
 
     class SocketProxy:
@@ -189,9 +224,7 @@ def install(world, dev):
 
         @staticmethod
         def create_connection(addr, timeout=None):
-            world.attempts.append(world.now)
-            world.note(("attempt", world.now))
-            ok = world.plan.pop(0) if world.plan else True
+            ok = world.dial()
             if ok == "timeout":
                 raise realsocket.timeout("timed out")
             if not ok:
@@ -199,7 +232,7 @@ def install(world, dev):
             c = FakeSocket(world, len(world.conns))
             if ok == "okerr":
                 c.rx.append(OSError("connection reset right after connect"))
-            world.conns.append(c)
+            world.new_conn(c)
             return c
 
     class SelectProxy:
@@ -210,6 +243,12 @@ def install(world, dev):
                 raise OSError("bad file descriptor")
             return ([s] if s.readable() else [], [s], [])
 
+    orig_tcp = getattr(GT, "_verif_orig_TCPTransport", GT.TCPTransport)
+    GT._verif_orig_TCPTransport = orig_tcp
+
+    class DetTCPTransport(orig_tcp):
+        connect = det_connect
+    GT.TCPTransport = DetTCPTransport
     GS.serial = SerialProxy
     GS.time = FakeTime(world, "conn")
     GT.socket = SocketProxy
@@ -257,7 +296,18 @@ class SyncLink:
         self._q()
 
     def live(self):
-        return [c for c in self.w.conns if c.is_open]
+        return [c for c in self.w.conns if c.is_open and not c.orphan]
+
+    def release(self, ok):
+        """The dial in flight ends with this outcome."""
+        if not self.w.dialing:
+            return False
+        def f():
+            self.w.plan.insert(0, ok)
+            self.w.releases += 1
+        self.w.do(f)
+        self._q()
+        return True
 
     def read_error(self):
         import serial
@@ -295,7 +345,7 @@ class SyncLink:
         probes = sum(1 for c in w.conns for (d, t) in c.written if d == b"0;255;3;0;2;\n")
         lib = [t for t in threading.enumerate() if t.ident not in w.base_threads and t.is_alive()]
         return {"now": int(round(w.now / UNIT)), "made": len(made), "lost": len(lost), "lostexc": [1 if e[2] else 0 for e in lost],
-                "attempts": [int(round(t / UNIT)) for t in w.attempts], "nconn": len(w.conns), "live": len(self.live()),
+                "attempts": [int(round(t / UNIT)) for t in w.attempts], "nconn": len([c for c in w.conns if not c.orphan]), "live": len(self.live()), "orphans": w.orphans,
                 "probes": probes, "after_stop": len(w.after_stop), "threads": len(lib), "quiescent": self.ok}
 
     def shutdown(self):
